@@ -7,8 +7,12 @@
    The monomial integral on the reference triangle is DEFINED by Dirichlet's formula a! b! c!/(a+b+c+2)!
    (dirichletQ / dirichletR, pintegral); it is not derived from a measure-theoretic integral. *)
 From Coq Require Import Reals QArith Qabs ZArith List Lia Lra.
+From Coquelicot Require Coquelicot.
+Import Coquelicot.Hierarchy Coquelicot.RInt.
 From OM Require Import Base.Ops Base.OpsR Base.Vec3 Gen.GenQuadTables Geom.Kernels Geom.Quadrature
-                       Geom.QuadTablesProofs Geom.QuadProofs Geom.KernelProofs.
+                       Geom.QuadTablesProofs Geom.QuadProofs Geom.KernelProofs
+                       Geom.QuadSymmetry Geom.AdaptiveProofs Geom.EdgeIntegral Geom.SolidAngleValues.
+From Coq Require Import Permutation.
 Import ListNotations.
 
 (* ---------------------------------------------------------------- reachable rules *)
@@ -79,6 +83,37 @@ Theorem rule_points_barycentric : forall order p, (order <= 3)%nat -> In p (rule
    0 <= qp_l0 p /\ 0 <= qp_l1 p /\ 0 <= qp_l2 p /\ 0 < qp_w p)%Q.
 Proof. exact rule_points_barycentric_lemma. Qed.
 Print Assumptions rule_points_barycentric.
+
+(* ---------------------------------------------------------------- orbit structure of the node sets *)
+(* rules 0,1,2: every permutation of the barycentric coordinates (weights carried along) maps the node list onto a
+   permutation of itself: the node set is closed under the symmetric group with equal weights on an orbit *)
+Theorem quadrature_point_set_symmetric : forall order s, (order <= 2)%nat -> In s perms6 ->
+  Permutation (map s (rule_of_order order)) (rule_of_order order).
+Proof. exact rule_symmetric_perm. Qed.
+Print Assumptions quadrature_point_set_symmetric.
+
+(* all rules incl. the 16-point one: closed up to 1e-15 in each coordinate, weights EXACTLY equal on an orbit *)
+Theorem quadrature_point_set_symmetric_partial : forall order s p, (order <= 3)%nat -> In s perms6 -> In p (rule_of_order order) ->
+  exists q, In q (rule_of_order order) /\ (qp_w q == qp_w (s p))%Q /\
+    (- (1 # 1000000000000000) <= qp_l0 (s p) - qp_l0 q /\ qp_l0 (s p) - qp_l0 q <= 1 # 1000000000000000)%Q /\
+    (- (1 # 1000000000000000) <= qp_l1 (s p) - qp_l1 q /\ qp_l1 (s p) - qp_l1 q <= 1 # 1000000000000000)%Q /\
+    (- (1 # 1000000000000000) <= qp_l2 (s p) - qp_l2 q /\ qp_l2 (s p) - qp_l2 q <= 1 # 1000000000000000)%Q.
+Proof. exact rule_closed_spec. Qed.
+Print Assumptions quadrature_point_set_symmetric_partial.
+
+(* the 16-point table is NOT exactly symmetric (orbit 0.658861384496479, 0.170569307751760, 0.170569307751761) *)
+Theorem quadrature_point_set_symmetric_rule3_refuted : rule_symmetric (rule_of_order 3) = false.
+Proof. exact rule_3_not_symmetric. Qed.
+Print Assumptions quadrature_point_set_symmetric_rule3_refuted.
+
+(* what survives for rule 3: its moments are invariant under permutations of the exponents within 1e-15 *)
+Theorem rule_3_moments_permutation_invariant : forall a b c, (a + b + c <= 8)%nat ->
+  ((- (1 # 1000000000000000) <= moment (rule_of_order 3) a b c - moment (rule_of_order 3) b c a /\
+    moment (rule_of_order 3) a b c - moment (rule_of_order 3) b c a <= 1 # 1000000000000000) /\
+   (- (1 # 1000000000000000) <= moment (rule_of_order 3) a b c - moment (rule_of_order 3) b a c /\
+    moment (rule_of_order 3) a b c - moment (rule_of_order 3) b a c <= 1 # 1000000000000000))%Q.
+Proof. exact rule3_moments_perm. Qed.
+Print Assumptions rule_3_moments_permutation_invariant.
 
 (* ---------------------------------------------------------------- over the reals *)
 Local Open Scope R_scope.
@@ -154,6 +189,41 @@ Theorem adaptive_exact_on_constants : forall ord depth tol c t0 t1 t2,
 Proof. exact adaptive_constants_lemma. Qed.
 Print Assumptions adaptive_exact_on_constants.
 
+(* exactly symmetric rules: the reference sum of ANY integrand is invariant under rotation / swap of the coordinates
+   (hence under all six permutations) -- per-triangle vertex rotation does not change the rule's value *)
+Theorem symmetric_rule_sum_rotation_invariant : forall order (g : R -> R -> R -> R), (order <= 2)%nat ->
+  refquad (rule_of_order order) (fun l0 l1 l2 => g l1 l2 l0) = refquad (rule_of_order order) g.
+Proof. exact refquad_rot_invariant. Qed.
+Print Assumptions symmetric_rule_sum_rotation_invariant.
+Theorem symmetric_rule_sum_swap_invariant : forall order (g : R -> R -> R -> R), (order <= 2)%nat ->
+  refquad (rule_of_order order) (fun l0 l1 l2 => g l1 l0 l2) = refquad (rule_of_order order) g.
+Proof. exact refquad_swap_invariant. Qed.
+Print Assumptions symmetric_rule_sum_swap_invariant.
+
+(* affine integrands c + g.x, UNCONDITIONAL: Integrator::integrate = area * f(centroid) within the 1e-14 band of the
+   vertex values, at every order, depth and tolerance (refined = coarse up to the band at every depth) *)
+Theorem adaptive_exact_on_affine : forall ord depth tol c (g : vec3 R) t0 t1 t2,
+  Rabs (integrate OpsR (RS_scalar OpsR) ord depth tol (fun v => c + dot OpsR g v) t0 t1 t2
+        - area2 OpsR t0 t1 t2 * (c / 2 + (dot OpsR g t0 + dot OpsR g t1 + dot OpsR g t2) / 6))
+    <= / IZR (10 ^ 14) * (Rabs c + Rabs (dot OpsR g t0) + Rabs (dot OpsR g t1) + Rabs (dot OpsR g t2)) * area2 OpsR t0 t1 t2.
+Proof. exact adaptive_exact_on_affine_lemma. Qed.
+Print Assumptions adaptive_exact_on_affine.
+
+(* polynomials of degree <= degree(rule), CONDITIONAL on: an additive integral I given on every triangle by Dirichlet's
+   formula for f's coefficients in that triangle's barycentric coordinates, coefficient norm <= K on every triangle *)
+Theorem adaptive_exact_on_polynomials : forall ord (f : vec3 R -> R) (I : vec3 R -> vec3 R -> vec3 R -> R) K,
+  (forall t0 t1 t2,
+    I t0 t1 t2 = I t0 (midpoint OpsR t2 t0) (midpoint OpsR t0 t1) + I (midpoint OpsR t1 t2) t1 (midpoint OpsR t0 t1)
+               + I (midpoint OpsR t1 t2) (midpoint OpsR t2 t0) t2 + I (midpoint OpsR t1 t2) (midpoint OpsR t2 t0) (midpoint OpsR t0 t1)) ->
+  (forall t0 t1 t2, exists p,
+    pdeg_le (rule_degree (safe_order ord)) p /\
+    (forall l0 l1 l2, f (bary_point OpsR l0 l1 l2 t0 t1 t2) = peval p l0 l1 l2) /\
+    I t0 t1 t2 = area2 OpsR t0 t1 t2 * pintegral p /\ pnorm1 p <= K) ->
+  forall depth tol t0 t1 t2,
+    Rabs (integrate OpsR (RS_scalar OpsR) ord depth tol f t0 t1 t2 - I t0 t1 t2) <= / IZR (10 ^ 14) * K * area2 OpsR t0 t1 t2.
+Proof. exact adaptive_exact_on_polynomials_lemma. Qed.
+Print Assumptions adaptive_exact_on_polynomials.
+
 (* ---------------------------------------------------------------- kernels *)
 Theorem D3_components_sum_to_solid_angle : forall v0 v1 v2 x : vec3 R,
   let r := analyticD3_f OpsR (analyticD3_init OpsR v0 v1 v2) x in
@@ -190,6 +260,22 @@ Theorem green_nonpositive_argument_only_on_edge_line : forall p0 p1 x : vec3 R,
   cross OpsR p0x p1p0 = mkV 0 0 0.
 Proof. exact green_fallback_on_line_lemma. Qed.
 Print Assumptions green_nonpositive_argument_only_on_edge_line.
+
+(* closed form = integral, PROVED for the edge term: log(arg) of integral_simplified_green is the line integral of
+   1/|x-y| along the edge p0->p1 (Coquelicot's Riemann integral), for every x off the edge line *)
+Theorem green_log_is_edge_integral : forall p0 p1 x : vec3 R,
+  let p0x := vsub OpsR p0 x in let p1x := vsub OpsR p1 x in let e := vsub OpsR p1 p0 in
+  0 < norm2 OpsR (cross OpsR p0x e) ->
+  Coquelicot.RInt.is_RInt (fun t => norm OpsR e / norm OpsR (vsub OpsR (vadd OpsR p0 (vscale OpsR t e)) x)) 0 1
+          (ln (green_arg OpsR p0x (norm OpsR p0x) p1x (norm OpsR p1x) e (norm OpsR e))).
+Proof. exact green_log_is_edge_integral_lemma. Qed.
+Print Assumptions green_log_is_edge_integral.
+
+(* a value forced by symmetry: the coordinate octant, 4 PI / 8 *)
+Theorem solid_angle_octant : forall a b c, 0 < a -> 0 < b -> 0 < c ->
+  solid_angle OpsR (mkV 0 0 0) (mkV a 0 0) (mkV 0 b 0) (mkV 0 0 c) = PI / 2.
+Proof. exact solid_angle_octant_lemma. Qed.
+Print Assumptions solid_angle_octant.
 
 (* ---------------------------------------------------------------- hypotheses are satisfiable *)
 Example green_hypothesis_satisfiable :
